@@ -90,7 +90,9 @@ ParseFieldLines(lines) ==
              IF acc.hs = <<>> THEN HBad
              ELSE LET part == Strip(ln, OWS) IN
                   IF ~AllIn(part, FieldContent) THEN HBad
-                  ELSE [acc EXCEPT !.hs[Len(acc.hs)][2] = @ \o <<SP>> \o part]
+                  ELSE (* joined with one SP; optional whitespace is never part of a field value, so an
+                          empty first line or an empty continuation leaves no edge whitespace *)
+                       [acc EXCEPT !.hs[Len(acc.hs)][2] = Strip(@ \o <<SP>> \o part, OWS)]
         ELSE LET c == FirstIn(ln, {Colon}) IN
              IF c = 0 THEN HBad
              ELSE LET name == SubSeq(ln, 1, c - 1)
